@@ -54,16 +54,18 @@ func isPIDClear(s *ksim.Sent) bool {
 
 // execC17 runs one history; ok=false means the history is not well-formed use
 // (skipped).
-func execC17(hist []int, env *envdfs.Env) (viol []Viol, log string, ops int64, wellFormed bool) {
+func execC17(hist []int, env *envdfs.Env, shape ksim.Shape) (viol []Viol, log string, ops int64, wellFormed bool) {
 	sim := ksim.New(env)
 	sim.NoDeviations = true
 	sim.Verdicts = []int{0, 1}
+	sim.Shape = shape
+	sim.Guard = true
 	sim.CloseAnswers = []syscall.Errno{0, syscall.EINTR, syscall.EBADF, syscall.EIO}
 	sim.Rules = simRules(2)
 	c := &libaudit.AuditClient{Netlink: sim}
 	fail := func(sig, format string, a ...interface{}) {
 		viol = append(viol, Viol{Sig: sig, What: fmt.Sprintf(format, a...) + " | history " + histNames(hist, c17Names) + " | kernel log: " + strings.Join(sim.Log, " "),
-			Replay: map[string]interface{}{"Kind": "c17", "History": hist, "Env": append([]int{}, env.Taken...)}})
+			Replay: map[string]interface{}{"Kind": "c17", "History": hist, "Env": append([]int{}, env.Taken...), "Shape": shape}})
 	}
 	nList := 0
 	var pending []*ksim.Sent // model of unconsumed NoWait requests, in order
@@ -288,40 +290,47 @@ func runC17(j Job) *JobResult {
 	jr := &JobResult{}
 	outcomes := map[string]struct{}{}
 	sigSeen := map[string]bool{}
-	for _, h := range j.Histories {
-		h := h
-		skip := false
-		n := envdfs.Explore(j.Bound, func(env *envdfs.Env) {
-			if skip {
-				return
-			}
-			viol, log, ops, ok := execC17(h, env)
-			if !ok {
-				skip = true
-				return
-			}
-			jr.Ops += ops
-			outcomes[log] = struct{}{}
-			for _, v := range viol {
-				if !sigSeen[v.Sig] {
-					sigSeen[v.Sig] = true
-					jr.Viol = append(jr.Viol, v)
+	shapes := j.Shapes
+	if len(shapes) == 0 {
+		shapes = []ksim.Shape{j.Shape}
+	}
+	for _, shape := range shapes {
+		shape := shape
+		for _, h := range j.Histories {
+			h := h
+			skip := false
+			n := envdfs.Explore(j.Bound, func(env *envdfs.Env) {
+				if skip {
+					return
 				}
+				viol, log, ops, ok := execC17(h, env, shape)
+				if !ok {
+					skip = true
+					return
+				}
+				jr.Ops += ops
+				outcomes[log] = struct{}{}
+				for _, v := range viol {
+					if !sigSeen[v.Sig] {
+						sigSeen[v.Sig] = true
+						jr.Viol = append(jr.Viol, v)
+					}
+				}
+				if len(jr.Samples) < 1 && len(h) >= 4 && env.Deviations() >= 1 {
+					jr.Samples = append(jr.Samples, fmt.Sprintf("history %s env=%v: %s", histNames(h, c17Names), env.Taken, log))
+				}
+			})
+			if !skip {
+				jr.Executions += n
 			}
-			if len(jr.Samples) < 1 && len(h) >= 4 && env.Deviations() >= 1 {
-				jr.Samples = append(jr.Samples, fmt.Sprintf("history %s env=%v: %s", histNames(h, c17Names), env.Taken, log))
-			}
-		})
-		if !skip {
-			jr.Executions += n
 		}
 	}
 	jr.Outcomes = len(outcomes)
 	return jr
 }
 
-func replayC17(hist []int, envp []int) []Viol {
-	v, log, _, _ := execC17(hist, envdfs.New(envp))
+func replayC17(hist []int, envp []int, shape ksim.Shape) []Viol {
+	v, log, _, _ := execC17(hist, envdfs.New(envp), shape)
 	fmt.Println("history:", histNames(hist, c17Names), "env:", envp, "\nkernel log:", log)
 	return v
 }
@@ -459,6 +468,30 @@ func checkC17(tier string, raceBin string) int {
 	var jobs []interface{}
 	for _, c := range chunk(hs, 64) {
 		jobs = append(jobs, Job{Kind: "c17", Histories: c, Bound: bound})
+	}
+	// sweeps over what the small alphabet holds constant: every single nlmsg_flags bit on everything the
+	// kernel sends back, and every errno 1..133 (+512..530, 4095) as a verdict, for the short histories in
+	// which one acknowledgement decides the outcome (NoWait + wait, SetPID in both modes + Close, listing)
+	var sweepH [][]int
+	for _, h := range allHistories([]int{aRateNoWait, aWaitAcks, aPIDNoWait, aPIDWait, aGetRules, aClose}, 3) {
+		sweepH = append(sweepH, h)
+	}
+	var shapes []ksim.Shape
+	for b := 0; b < 16; b++ {
+		shapes = append(shapes, ksim.Shape{ReplyFlags: 1 << b})
+	}
+	shapes = append(shapes, ksim.Shape{ReplyFlags: 0xFFFF})
+	for e := 2; e <= 4095; e++ {
+		if e <= 133 || (e >= 512 && e <= 530) || e == 4095 {
+			shapes = append(shapes, ksim.Shape{Errno: e})
+		}
+	}
+	for i := 0; i < len(shapes); i += 6 {
+		k := i + 6
+		if k > len(shapes) {
+			k = len(shapes)
+		}
+		jobs = append(jobs, Job{Kind: "c17", Histories: sweepH, Bound: 2, Shapes: shapes[i:k]})
 	}
 	collect(run, "C17", jobs, nil)
 	// concurrent Close: all interleavings
